@@ -419,11 +419,23 @@ func FlattenEventLists(eventslist []*EventList) (*EventList, error) {
 	})
 	var events []*Event
 	prod := big.NewInt(1)
-	for _, e := range eventslist {
+	// the result is marked verified (its chain is not recomputed later) only if every part is, and the parts have to
+	// continue each other: consecutive indices, and each first parent hash is the hash of the event before it
+	verified := true
+	for k, e := range eventslist {
+		if k > 0 {
+			prev := eventslist[k-1]
+			last := prev.Events[len(prev.Events)-1]
+			if last == nil || last.E == nil || e.Events[0] == nil || e.Events[0].Index != last.Index+1 ||
+				last.hashEquals(e.Events[0].ParentHash) != nil {
+				return nil, errors.New("event lists do not continue each other")
+			}
+		}
+		verified = verified && e.verified
 		prod.Mul(prod, e.product)
 		events = append(events, e.Events...)
 	}
-	return &EventList{Events: events, product: prod, verified: true}, nil
+	return &EventList{Events: events, product: prod, verified: verified}, nil
 }
 
 type compressedEventList struct {
